@@ -778,6 +778,41 @@ func (c *SpecCtx) call(x *ECall) Val {
 			}
 		}
 		c.fail("isFieldOf: no field %s", sel.Name)
+	case "isFieldOfOpt":
+		// like isFieldOf, but false when the type is not part of the loaded program
+		v := arg(0)
+		sel, ok := x.Args[1].(*ESel)
+		if !ok {
+			c.fail("isFieldOfOpt(a, T.f) expected")
+		}
+		var t types.Type
+		func() {
+			defer func() {
+				if r := recover(); r != nil {
+					if _, isSpec := r.(specErr); !isSpec {
+						panic(r)
+					}
+				}
+			}()
+			t = c.resolveType(sel.X.String())
+		}()
+		if t == nil {
+			return Val{T: "false", Ty: tBool}
+		}
+		st, ok := t.Underlying().(*types.Struct)
+		if !ok {
+			return Val{T: "false", Ty: tBool}
+		}
+		for i := 0; i < st.NumFields(); i++ {
+			if st.Field(i).Name() == sel.Name {
+				fn := env.fieldFn(t, i)
+				return Val{T: fmt.Sprintf("(= (ftag %s) %d)", refOf(c, v), env.fieldTag[fn]), Ty: tBool}
+			}
+		}
+		return Val{T: "false", Ty: tBool}
+	case "isGlobal":
+		v := arg(0)
+		return Val{T: fmt.Sprintf("(= (ftag %s) (- 2))", refOf(c, v)), Ty: tBool}
 	case "isStructField":
 		v := arg(0)
 		return Val{T: fmt.Sprintf("(and (>= (ftag %s) 1) (< (ftag %s) 1000000))", refOf(c, v), refOf(c, v)), Ty: tBool}
@@ -982,7 +1017,7 @@ func (c *SpecCtx) locs(e Expr) []Loc {
 			}
 			d := c.with(map[string]Val{"%a": {T: "%ADDR%", Ty: types.Typ[types.UnsafePointer]}})
 			v := d.eval(&ECall{Fun: id.Name, Args: []Expr{&EIdent{Name: "%a"}}})
-			cond := fmt.Sprintf("(and %s (not (= (ftag %%ADDR%%) (- 4))) (< (ftag %%ADDR%%) 1000000))", v.T)
+			cond := fmt.Sprintf("(and %s (not (= (ftag %%ADDR%%) (- 4))) (not (= (ftag %%ADDR%%) (- 5))) (< (ftag %%ADDR%%) 1000000))", v.T)
 			var out []Loc
 			for hn := range heapSortTable {
 				if strings.HasPrefix(hn, "Mem_") {
